@@ -46,7 +46,7 @@ def gen_cases(tier, seed):
         # through, whichever way the new content gets there
         older = not devdest and r.random() < 0.3
         yield {"older": older, "devdest": devdest, "spec": spec, "driver": driver, "mode": mode, "answer": ans, "okfiles": sorted(r.sample(range(nf), r.randint(1, nf))) if ans == "mixed" else None,
-               "args": ["--driver", driver, "-w", str(r.choice([0, 1, 2, 4])), "--block-size", "32KB", "--reflink", r.choice([mode, mode, mode.upper(), mode.capitalize()]), "-r", "src", "dst"],
+               "args": ["--driver", driver, "-w", str(r.choice([0, 1, 2, 4])), "--block-size", r.choice(["32KB", "32KB", "2KB", "4096", "1MB"]), "--reflink", r.choice([mode, mode, mode.upper(), mode.capitalize()]), "-r", "src", "dst"],
                "fs": "tmpfs" if r.random() < 0.2 else "ext4", "sched": r.choice(["free", "pct"]), "sseed": r.randrange(1 << 30),
                # verbose logging whose output cannot be written (full disk behind a redirection, reader gone): the mode's contract is unchanged
                "logfail": r.choice([None, None, None, None, None, "stdout", "stderr", "both"]), "verbose": r.choice(["-v", "-vv", "-vvv"])}
